@@ -456,6 +456,15 @@ def run(shard, tier, seed):
     @given(st.randoms(use_true_random=True), st.sampled_from(chainexec.CFGS), st.integers(6, 13 if tier == "quick" else 22))
     def prop(rnd, cfg, nb):
         case = gen(rnd, cfg, nb)
+        if shard["i"] >= 13 and rnd.random() < 0.6:
+            # a barrage over ONE connection: every rule-breaking block comes several times (a refused block is new each time),
+            # so that connection has seen well over ten refusals when the later ones -- and the valid blocks after them -- arrive
+            dl = []
+            for i, _who in case["deliveries"]:
+                times = rnd.randrange(2, 5) if i >= 0 and case["ops"][i].get("mut") else 1
+                dl += [[i, 0]] * times
+            case["deliveries"] = dl
+            res.count("sequences_barrage_on_one_connection")
         try:
             fails, ex = execute(case)
         except env.HarnessError as e:
